@@ -266,7 +266,8 @@ impl Indexable for ast::Defvar {
     type Output = ();
     fn index(&self, ctx: &mut IndexCtx) -> Option<Self::Output> {
         let (name, define_loc) = utils::identifier(&self.name()?, ctx)?;
-        let typ = self.value()?.index(ctx)?;
+        // the variable exists even if the type of its initialiser cannot be computed
+        let typ = self.value()?.index(ctx).unwrap_or(Type::Unknown);
         let variable = Variable::new(name, typ, VariableKind::Defvar, define_loc);
         ctx.scopes.add_variable(&mut ctx.symbol_map, variable);
         None
@@ -296,7 +297,8 @@ impl Indexable for ast::ForeachIterator {
     type Output = (EcoString, VariableId);
     fn index(&self, ctx: &mut IndexCtx) -> Option<Self::Output> {
         let (name, define_loc) = utils::identifier(&self.name()?, ctx)?;
-        let typ = self.init()?.index(ctx)?;
+        // the iterator exists even if the type of its initialiser cannot be computed
+        let typ = self.init()?.index(ctx).unwrap_or(Type::Unknown);
 
         let variable = Variable::new(name.clone(), typ, VariableKind::Foreach, define_loc);
         let variable_id = ctx.symbol_map.add_variable(variable);
